@@ -118,7 +118,7 @@ META = {
     "C20": M("exploration", "§6 C20",
         "Runs histories of publishes against a fake Cloudflare API (pagination, PATCH merge, failure injection, full request log) and compares results, request log and the stored records with a model store: one result per target in order, "
         "only the ech parameter changed, no PATCH when current, records on later pages found, non-targets untouched, failures isolated; every third history the API omits JSON members that hold a zero value; every fifth history a zone is absent during the first publishes and appears between two of them. An existing record is never reported not-found because the API failed." + HELD,
-        "The fake API follows Cloudflare's documented envelope (count = items on this page); HTTPS names unique per zone.",
+        "The fake API follows Cloudflare's documented envelope (count = items on this page); HTTPS names unique per zone. Writes are attributed per record (a publisher may send writes to different records in any order or concurrently).",
         "runtime monitor: request-log and store-diff oracle against a model of the API"),
 }
 
